@@ -18,6 +18,8 @@ import (
 	"bufio"
 	"bytes"
 	"encoding"
+	"encoding/base64"
+	"encoding/json"
 	"errors"
 	"fmt"
 	"io"
@@ -26,7 +28,9 @@ import (
 	"net/http"
 	"net/http/httputil"
 	"os"
+	"strings"
 	"time"
+	"unicode/utf8"
 )
 
 // Response represents a cached HTTP response entry.
@@ -177,6 +181,59 @@ func (r ResponseRef) LogValue() slog.Value {
 		slog.Any("vary_resolved", r.VaryResolved),
 		slog.Time("received_at", r.ReceivedAt),
 	)
+}
+
+// jsonOpaquePrefix marks a string that is stored base64-encoded in the JSON
+// index because it is not valid UTF-8 (encoding/json would replace its bytes
+// with U+FFFD, so the reference would never match, or name, what it was
+// written for).
+const jsonOpaquePrefix = "\x00b64:"
+
+func jsonSafeString(s string) string {
+	if utf8.ValidString(s) && !strings.HasPrefix(s, jsonOpaquePrefix) {
+		return s
+	}
+	return jsonOpaquePrefix + base64.RawStdEncoding.EncodeToString([]byte(s))
+}
+
+func jsonOriginalString(s string) string {
+	if rest, ok := strings.CutPrefix(s, jsonOpaquePrefix); ok {
+		if b, err := base64.RawStdEncoding.DecodeString(rest); err == nil {
+			return string(b)
+		}
+	}
+	return s
+}
+
+// MarshalJSON keeps every byte of the identifier, the Vary value and the
+// resolved header values, also when they are not valid UTF-8.
+func (r ResponseRef) MarshalJSON() ([]byte, error) {
+	type plain ResponseRef
+	p := plain(r)
+	p.ResponseID = jsonSafeString(r.ResponseID)
+	p.Vary = jsonSafeString(r.Vary)
+	if r.VaryResolved != nil {
+		p.VaryResolved = make(map[string]string, len(r.VaryResolved))
+		for k, v := range r.VaryResolved {
+			p.VaryResolved[k] = jsonSafeString(v)
+		}
+	}
+	return json.Marshal(p)
+}
+
+func (r *ResponseRef) UnmarshalJSON(data []byte) error {
+	type plain ResponseRef
+	var p plain
+	if err := json.Unmarshal(data, &p); err != nil {
+		return err
+	}
+	p.ResponseID = jsonOriginalString(p.ResponseID)
+	p.Vary = jsonOriginalString(p.Vary)
+	for k, v := range p.VaryResolved {
+		p.VaryResolved[k] = jsonOriginalString(v)
+	}
+	*r = ResponseRef(p)
+	return nil
 }
 
 type ResponseRefs []*ResponseRef
